@@ -298,7 +298,11 @@ fn build_context_evaluator(scope: &Scope, context: &Context) -> Result<Evaluator
   }
   scope.pop();
   Ok(Box::new(move |scope: &Scope| {
+    // the entries are evaluated in a context of their own (like when the evaluator is built),
+    // so they are visible to the entries that follow, but not to whatever encloses this context
+    scope.push(FeelContext::default());
     let mut evaluated_context = FeelContext::default();
+    let mut result = None;
     for (opt_name, evaluator) in &entry_evaluators {
       match opt_name {
         Some(name) => {
@@ -307,11 +311,13 @@ fn build_context_evaluator(scope: &Scope, context: &Context) -> Result<Evaluator
           evaluated_context.set_entry(name, value);
         }
         None => {
-          return evaluator(scope);
+          result = Some(evaluator(scope));
+          break;
         }
       }
     }
-    Value::Context(evaluated_context)
+    scope.pop();
+    result.unwrap_or(Value::Context(evaluated_context))
   }))
 }
 
